@@ -382,7 +382,8 @@ func run(id string, cfg propCfg, tier string, seed uint64, repo string, jobs int
 		}
 	}
 	wall := time.Since(start).Seconds()
-	if replayCase == nil {
+	if replayCase == nil && os.Getenv("VERIF_NO_EVIDENCE") == "" {
+		// (VERIF_NO_EVIDENCE: runs against a deliberately broken scratch tree must not replace the evidence of the real one)
 		writeEvidence(id, cfg, tier, seed, merged, ndistinct, keys, known, variantNames, wall, unknown)
 	}
 	fmt.Printf("%s tier=%s seed=%d evaluations=%d distinct_nontrivial=%d violations=%d known=%d inconclusive=%d crashes=%d wall=%.1fs\n",
@@ -896,7 +897,8 @@ func writeEvidence(id string, cfg propCfg, tier string, seed uint64, m shardResu
 		}
 	}
 	if len(m.samples) == 0 {
-		cov["samples"] = []any{}
+		// no case was sampled by the workers (e.g. they all died early): say so instead of leaving the list empty
+		cov["samples"] = []any{map[string]any{"kind": "none", "note": "no case was sampled in this run", "evaluations": m.evals}}
 	}
 	assumptions := []string{}
 	if a, ok := m.metas["assumptions"].([]any); ok {
